@@ -108,6 +108,15 @@ def shape_vector_case(rng, name, st):
         n2 = rand_vec_len(rng)
         n1 = n2 if rng.random() < 0.35 else rand_vec_len(rng)
         st[key] = [rand_vec(rng, key, n1), rand_vec(rng, key, n2)][rng.randrange(0, 8) == 0:] + st[key][:rng.randrange(0, 3)]
+    # SORT on LONG vectors (the standard library switches algorithm above 20 elements and checks the comparator there)
+    if "SORT" in name and rng.random() < 0.3:
+        n = rng.randrange(21, 70)
+        v = rand_vec(rng, key, n)
+        if key == "fvec":
+            v = [fbits(float(n - i)) for i in range(n)] if rng.random() < 0.5 else v
+            for _ in range(rng.randrange(1, 4)):
+                v[rng.randrange(0, n)] = rng.choice([0x7fc00000, 0x7fc00000, 0x7f800000, 0x80000000])
+        st[key] = [v] + st[key]
     lens = [len(v) for v in st[key][:2]] + [len(st[key])] or [0]
     if rng.random() < 0.85:
         m = max(lens)
